@@ -38,9 +38,11 @@ impl SimulationBoundary {
             HalfSpace::new(DVec3::NEG_Z, anchor + width, None, None),
         ];
 
+        // The integer grid must contain the box, all mirror images of generators through its walls
+        // (`[anchor - width, anchor + 2 * width]`, both ends included) strictly inside `[1, 2)`.
         Self {
-            anchor: anchor - width,
-            inverse_width: 1. / (3. * width),
+            anchor: anchor - 1.5 * width,
+            inverse_width: 1. / (4. * width),
             dimensionality,
             clipping_planes,
         }
